@@ -10,6 +10,7 @@ from .states import snapshot, same_value, Realizer, tofloat
 from . import teval as TE
 
 TIMEOUT_MS = {'quick': int(os.environ.get('PYVC_TIMEOUT_MS', 30000)), 'thorough': int(os.environ.get('PYVC_TIMEOUT_MS', 120000))}
+HEAVY_BUDGET_S = {'quick': 240, 'thorough': 1200}
 BASE_ASSUMPTIONS = [
     "A1 float/float64 arithmetic treated as mathematical reals (rounding is covered only by the bounded run-time tier)",
     "A2 Python/NumPy integers treated as unbounded mathematical integers (no int64 overflow)",
@@ -120,7 +121,7 @@ def cfg_str(cfg):
 
 
 # ---------------------------------------------------------------------------------- solving
-def prove(pc, goal, timeout_ms, cross=False):
+def prove(pc, goal, timeout_ms, cross=False, light=False):
     """pc => goal ?  returns (status, backend, seconds, model|None, reason)"""
     t0 = time.time()
     if isinstance(goal, bool) and goal:
@@ -138,6 +139,8 @@ def prove(pc, goal, timeout_ms, cross=False):
         status, backend, model, reason = 'failed', 'z3-5.1', so.model(), ''
     else:
         status, backend, model, reason = 'undecided', 'z3-5.1', None, so.reason_unknown()
+        if light:
+            return status, backend, dt, model, reason
         # a time-out under load must not flip a verdict: one more one-shot attempt with a 4x budget and another seed
         so2 = z3.Solver()
         so2.set('timeout', timeout_ms * 4)
@@ -409,6 +412,8 @@ def run_task(args):
         else:
             src = get_source()
         E = new_engine(mod, src)
+        if mutant:
+            E.FEAS_TIMEOUT = 800       # controls only need one refuted obligation; undecided feasibility explores both sides anyway
         C = mod.contract(cname)
         if C.func is None:
             obs, npaths = C.lemmas(E, cfg, prop), 0
@@ -418,7 +423,7 @@ def run_task(args):
         # vacuity guard: the hypotheses of every path / lemma must be satisfiable (a contradictory requires,
         # assumed contract or lemma hypothesis would discharge everything)
         seen_pc = {}
-        for ob in obs:
+        for ob in (obs if not mutant else []):
             pk = (ob.get('path'), len(ob['pc']))
             if pk in seen_pc or ob['kind'] in ('div0', 'pre'):
                 continue
@@ -429,8 +434,20 @@ def run_task(args):
             if seen_pc[pk] == z3.unsat:
                 res['error'] = f"vacuity: contradictory hypotheses on {ob['id']}"
         res['vacuity_checked'] = len(seen_pc)
+        if mutant and mod.MUTANTS[mutant].get('expect'):
+            # the control names the clause it is meant to break: only those obligations are tried
+            obs = [ob for ob in obs if mod.MUTANTS[mutant]['expect'] in ob['text']]
         for ob in obs:
-            status, backend, secs, model, reason = prove(ob['pc'], ob['goal'], TIMEOUT_MS[tier], cross=(tier == 'thorough' and not mutant))
+            if mutant:
+                # negative control: one refuted obligation is all that is asked for (short budget, no second opinions)
+                status, backend, secs, model, reason = prove(ob['pc'], ob['goal'], min(10000, TIMEOUT_MS[tier]), light=True)
+            else:
+                # second efforts (4x retry, external solvers) are bounded per task: a source change that makes many
+                # obligations hard must not stall the check (they stay 'undecided', never 'violated')
+                heavy_left = HEAVY_BUDGET_S[tier] - res.get('heavy_seconds', 0.0)
+                status, backend, secs, model, reason = prove(ob['pc'], ob['goal'], TIMEOUT_MS[tier], cross=(tier == 'thorough'), light=heavy_left <= 0)
+                if secs > TIMEOUT_MS[tier] / 1000.0:
+                    res['heavy_seconds'] = res.get('heavy_seconds', 0.0) + secs - TIMEOUT_MS[tier] / 1000.0
             rec = {k: ob[k] for k in ('key', 'id', 'config', 'kind', 'text')}
             rec.update(status=status, backend=backend, seconds=round(secs, 3), reason=reason, contract=cname, cfg=cfg)
             res['solver_seconds'] += secs
@@ -448,6 +465,8 @@ def run_task(args):
             if status == 'error':
                 res['error'] = reason
             res['obligations'].append(rec)
+            if mutant and status == 'failed':
+                break
     except ControlNotApplicable as e:
         # the source no longer contains the text this control mutates: the control says nothing (recorded, not an error;
         # the obligations of the real source are generated and judged independently of the controls)
@@ -686,6 +705,7 @@ def run_property(mod, prop, tier, seed, jobs):
         'dropped': DROPPED, 'negative_controls': neg, 'crosscheck': cc_out,
         'vacuity': {'contracts_x_configs': len(tasks), 'all_nonzero': not any('vacuity' in str(e.get('error')) for e in errors)},
         'bounded_in': getattr(mod, 'BOUNDED_IN', []),
+        'slowest_tasks': sorted([(round(r['wall'], 1), ('control:' + r['mutant'] + ' ' if r.get('mutant') else '') + r['contract'] + '[' + r['config'] + ']') for r in main + mut], reverse=True)[:6],
         'wall': time.time() - t0,
     }
 
